@@ -239,26 +239,82 @@ class Engine:
     self.quick_prune = quick_prune
     self.max_paths = 4000
     self.on_empty_list = None  # script hook: what `[]` allocates
-    self.sources = []  # repo files whose module-level literal constants are visible
+    self.sources = []  # repo files whose module-level names are visible
+    self._gcache = {}
     self.stats = {'paths': 0}
 
   def resolve_global(self, ctx, name):
-    """Module-level literal constants of the file the running function was
-    extracted from (e.g. `_NUM_ATTEMPTS = 3`) are read from the real source."""
+    """Names not given a contract by the proof script are looked up in the
+    module the running function was extracted from (then in self.sources):
+    literal constants, module-level `NAME = <expr>` (evaluated here, e.g.
+    `_tree_add_eq = jax.jit(tree_add, donate_argnums=0)`), functions (inlined
+    callees; decorators are applied through the library table) and classes."""
     try:
       f = ctx.cur_frame().get('$func')
     except Exception:
       f = None
     rel = getattr(f, 'relpath', None) if f is not None else None
-    for r in ([rel] if rel else []) + list(self.sources):
-      try:
-        from .extract import module_constant
-        v = module_constant(r, name)
-      except Undecided:
-        continue
-      if isinstance(v, (int, float, str, bytes, bool, tuple)) or v is None:
-        return (v,)
+    for r in ([rel] if rel else []) + [s for s in self.sources if s != rel]:
+      key = (r, name)
+      if key in self._gcache:
+        return self._gcache[key]
+      v = self._resolve_in(ctx, r, name)
+      if v is not None:
+        self._gcache[key] = v
+        return v
     return None
+
+  def _resolve_in(self, ctx, relpath, name):
+    from . import extract
+    try:
+      src, tree = extract.parse(relpath)
+    except Undecided:
+      return None
+    for n in tree.body:
+      if isinstance(n, ast.FunctionDef) and n.name == name:
+        ex = extract.Extracted(relpath, name)
+        fv = ex.funcv()
+        for d in reversed(n.decorator_list):
+          dec = self._eval_module_expr(ctx, relpath, d)
+          fv = self.call_value(ctx, dec, [fv], {})
+        if hasattr(fv, 'name') and not getattr(fv, 'name', None):
+          fv.name = name
+        return (fv,)
+      if isinstance(n, ast.ClassDef) and n.name == name:
+        methods = {}
+        for m in n.body:
+          if isinstance(m, ast.FunctionDef):
+            methods[m.name] = extract.Extracted(relpath, f'{name}.{m.name}').funcv()
+        fields = None
+        decs = [ast.unparse(d) for d in n.decorator_list]
+        if any('dataclass' in d for d in decs):
+          fields = []
+          for m in n.body:
+            if isinstance(m, ast.AnnAssign) and isinstance(m.target, ast.Name):
+              if m.value is None:
+                fields.append((m.target.id, core._NODEFAULT))
+              else:
+                fields.append((m.target.id, self._eval_module_expr(ctx, relpath, m.value)))
+        return (ClassModel(name, methods, fields=fields),)
+      if isinstance(n, ast.Assign):
+        for t in n.targets:
+          if isinstance(t, ast.Name) and t.id == name:
+            try:
+              return (ast.literal_eval(n.value),)
+            except Exception:
+              return (self._eval_module_expr(ctx, relpath, n.value),)
+    return None
+
+  def _eval_module_expr(self, ctx, relpath, node):
+    """Evaluates a module-level expression in a frame whose globals are that module."""
+    stub = FuncV(ast.parse('def _m(): pass').body[0], (), name='<module>')
+    stub.relpath = relpath
+    fid = ctx.push_frame(())
+    ctx.frames[fid]['$func'] = stub
+    try:
+      return self.eval(ctx, node)
+    finally:
+      ctx.pop_frame()
 
   # ------------------------------------------------------------------ driver
   def explore(self, sink, fn_name, body):
@@ -705,11 +761,38 @@ class Engine:
       return StrV()
     if isinstance(a, z3.SeqRef) and isinstance(b, z3.SeqRef) and op == 'Add':
       return z3.Concat(a, b)
+    if isinstance(a, z3.FPRef) or isinstance(b, z3.FPRef):
+      return self.fp_arith(ctx, op, a, b)
     if is_num(a) and is_num(b):
       return self.arith(ctx, op, a, b)
     raise Unsupported(f'binop {op} on {a!r}, {b!r}')
 
+  def fp_arith(self, ctx, op, a, b):
+    """IEEE-754 arithmetic, round-to-nearest-even (FP-mode obligations)."""
+    def conv(x, s):
+      if isinstance(x, z3.FPRef):
+        return x
+      if isinstance(x, bool):
+        x = int(x)
+      if isinstance(x, (int, float)):
+        return z3.FPVal(x, s)
+      raise Unsupported(f'mixing {x!r} with floating point')
+    s = a.sort() if isinstance(a, z3.FPRef) else b.sort()
+    a, b = conv(a, s), conv(b, s)
+    rm = z3.RNE()
+    if op == 'Add':
+      return z3.fpAdd(rm, a, b)
+    if op == 'Sub':
+      return z3.fpSub(rm, a, b)
+    if op == 'Mult':
+      return z3.fpMul(rm, a, b)
+    if op == 'Div':
+      return z3.fpDiv(rm, a, b)  # IEEE: x/0 = inf, 0/0 = NaN (no exception)
+    raise Unsupported(f'floating point {op}')
+
   def arith(self, ctx, op, a, b):
+    if isinstance(a, z3.FPRef) or isinstance(b, z3.FPRef):
+      return self.fp_arith(ctx, op, a, b)
     if isinstance(a, bool):
       a = int(a)
     if isinstance(b, bool):
@@ -805,6 +888,12 @@ class Engine:
         return op == 'NotEq'
       r = zand(*[self.compare(ctx, 'Eq', x, y) for x, y in zip(a, b)])
       return r if op == 'Eq' else znot(r)
+    if isinstance(a, z3.FPRef) or isinstance(b, z3.FPRef):
+      s = a.sort() if isinstance(a, z3.FPRef) else b.sort()
+      fa = a if isinstance(a, z3.FPRef) else z3.FPVal(a, s)
+      fb = b if isinstance(b, z3.FPRef) else z3.FPVal(b, s)
+      return {'Eq': z3.fpEQ(fa, fb), 'NotEq': z3.Not(z3.fpEQ(fa, fb)), 'Lt': z3.fpLT(fa, fb),
+              'LtE': z3.fpLEQ(fa, fb), 'Gt': z3.fpGT(fa, fb), 'GtE': z3.fpGEQ(fa, fb)}[op]
     if is_num(a) and is_num(b):
       if isinstance(a, z3.BoolRef) or isinstance(b, z3.BoolRef):
         if isinstance(a, (bool, z3.BoolRef)) and isinstance(b, (bool, z3.BoolRef)):
@@ -1342,7 +1431,7 @@ class Engine:
       return self.run_loop(ctx, s, spec, idx, header, cond, pre, adv,
                            hid if it.pos is None else None,
                            extra_havoc=[it.pos] if it.pos is not None else [],
-                           last=last)
+                           last=last, itget=getpos)
     if it.custom is not None:
       return it.custom.run_for(ctx, self, s, spec, idx, header)
     raise Unsupported('for over this iterable')
@@ -1418,7 +1507,7 @@ class Engine:
       ctx.store(n, UnknownBinding(n))
 
   def run_loop(self, ctx, s, spec, idx, header, cond, pre, adv, hid,
-               extra_havoc=(), last=None):
+               extra_havoc=(), last=None, itget=None):
     fn = ctx.fn_name
     lname = (spec.name if spec and spec.name else f'loop{idx}')
     if spec is None:
@@ -1462,7 +1551,9 @@ class Engine:
       mut_addrs.append(r.addr)
     mut_addrs = list(dict.fromkeys(mut_addrs))
 
-    entry_state = State(ctx, it=ctx.lookup(hid) if hid else None)
+    def _it(c):
+      return c.lookup(hid) if hid else (itget(c) if itget else None)
+    entry_state = State(ctx, it=_it(ctx))
     old = {}
     for n in names:
       try:
@@ -1506,7 +1597,7 @@ class Engine:
       ghost_names = list(ctx.ghost) if (contains_yield(body) or spec.ghost_step) else []
     for g in ghost_names:
       ctx.ghost[g] = self.fresh_like(ctx, ctx.ghost[g], '$' + g)
-    head = State(ctx, it=ctx.lookup(hid) if hid else None, old=old)
+    head = State(ctx, it=_it(ctx), old=old)
     ctx.assume(self._inv_formula(spec.inv(head)))
     if alt == 1:
       # inductive step
@@ -1544,7 +1635,7 @@ class Engine:
       finally:
         if ctx.loop_guard and ctx.loop_guard[-1][0] == epoch:
           ctx.loop_guard.pop()
-      tail = State(ctx, it=ctx.lookup(hid) if hid else None, old=old)
+      tail = State(ctx, it=_it(ctx), old=old)
       tail._head = headvals
       if spec.hints:
         for h in spec.hints(tail):
